@@ -153,7 +153,7 @@ def polar_cfg(rnd, quick):
     k.update({"XsB": set(hi), "YsB": set(lo), "HXsB": set(lo), "HYsB": set(hi)})
     f = rnd.choice([2, 5])
     k["FacePairs"] = {f * 6 + f}
-    k["ThinMod"] = 2 if quick else 1
+    k["ThinMod"] = 3 if quick else 1
     k["ThinRem"] = rnd.randrange(k["ThinMod"])
     return k
 
